@@ -139,7 +139,7 @@ def make_case(spec):
     if spec.get('special') == 'through-faces':
         return geo.build_through_faces(spec['cell'], spec['pattern'], random.Random(spec['seed']), depth=spec.get('depth', 0.05), anchor=spec.get('anchor', 0), only_face=spec.get('face'), decoys=spec.get('decoys', 2))
     if spec.get('special') == 'axis-poses':
-        return geo.build_axis_poses(spec['cell'], spec['pattern'], random.Random(spec['seed']), spec['which'])
+        return geo.build_axis_poses(spec['cell'], spec['pattern'], random.Random(spec['seed']), spec['which'], stretch=spec.get('stretch', 0.0))
     rnd = random.Random(spec['seed'])
     return geo.build(spec['cell'], spec['pattern'], spec['copies'], rnd, noise=spec.get('noise', 0.0), decoys=spec.get('decoys', 0),
                      mirror_decoys=spec.get('mirror', 0), near_miss=spec.get('near_miss', 0), atol=spec.get('atol', 0.05),
@@ -228,6 +228,11 @@ def specs(tier, seed):
         for pat in ('pair', 'pair-y', 'collinear3', 'collinear3-y', 'planar3', 'planar3-y', 'planar3-z', 'chiral4'):
             for which in range(3):
                 out.append(dict(special='axis-poses', cell=cell, pattern=pat, which=which, seed=seed * 1000 + 600, rng=which))
+    # copies stretched by half the tolerance along their longest direction, in axis-aligned poses (the longest distance of the pattern is exceeded)
+    for cell in ('cubic', 'tri-'):
+        for pat in ('pair', 'collinear3', 'planar3', 'chiral4'):
+            for which in range(3):
+                out.append(dict(special='axis-poses', cell=cell, pattern=pat, which=which, seed=seed * 1000 + 650, rng=which, stretch=0.03))
     # hint triples for small patterns
     for pat in ['pair', 'planar3', 'chiral4']:
         n = len(geo.PATTERNS[pat][0])
